@@ -305,7 +305,7 @@ pub fn self_containing() -> Vec<(&'static str, String)> {
 pub fn run(ctx: &Ctx) -> i32 {
     let mut total = Report::new();
     let n = shapes().len();
-    let cfg = util::ForkCfg { threads: ctx.threads, mem_bytes: 8 << 30, case_timeout_s: 120, died_signature: "C10/native-stack-or-abort".into(), resource_is_violation: false };
+    let cfg = util::ForkCfg { threads: ctx.threads, mem_bytes: 8 << 30, case_timeout_s: 40, died_signature: "C10/native-stack-or-abort".into(), resource_is_violation: false };
     let per = 4;
     let quick = ctx.quick();
     let r = util::par_forked(&cfg, n * per, |sh| {
